@@ -60,14 +60,15 @@ class GridMachine(Machine):
         "M in 3..60, N odd in 3..21",
         "scipy.integrate.quad (epsrel 1e-12) is trusted as the integrator of the "
         "fundamental-theorem oracle",
-        "bitwise comparison with a fresh grid is sound because grid construction is "
-        "a pure numpy computation (measured: 200 consecutive rescales reproduce the "
-        "fresh arrays bitwise)",
+        "comparison with a fresh grid uses 1e-12 relative + 1e-13 of the length scale "
+        "(the unchanged code reproduces the fresh arrays bitwise; the tolerance keeps a "
+        "valid re-ordering of floating-point operations from alarming)",
     ]
     REQUIRED_REACH = {
         "quick": {"faultFired": ["rejected_rescale"],
                   "probes": ["on_constraint_boundary", "rejected_then_accepted",
-                             "rescale_count_ge5", "plain_grid", "uniform_spacing"]},
+                             "rescale_count_ge5", "plain_grid", "uniform_spacing",
+                             "single_argument_rescale"]},
         "thorough": {"faultFired": ["rejected_rescale"],
                      "probes": ["on_constraint_boundary", "rejected_then_accepted",
                                 "rescale_count_ge5", "plain_grid", "uniform_spacing"]},
@@ -164,8 +165,25 @@ class GridMachine(Machine):
         if op == "rescale":
             if not self.is3:
                 return {"op": "rescale", "L": _logu(rng, 1e-2, 1e2)}
-            L = _logu(rng, 1e-2, 1e2)
             r, s = c["r"], c["s"]
+            p = self.params
+            roll = rng.random()
+            if roll < 0.25:
+                # change exactly one of the four arguments (or none), keeping the
+                # call admissible: what a converging solver does from one pressure
+                # evaluation to the next
+                which = rng.choice(["centre", "centre", "none", "tailIn", "tailOut", "L"])
+                step = {"op": "rescale", "kind": "one:" + which, "L": p["L"],
+                        "centre": p["centre"], "tailIn": p["tailIn"], "tailOut": p["tailOut"]}
+                lim = _lim(p["L"], r, s)
+                if which == "centre":
+                    step["centre"] = p["L"] * rng.uniform(-3, 3)
+                elif which in ("tailIn", "tailOut"):
+                    step[which] = lim * (1 + _logu(rng, 1e-3, 1e2))
+                elif which == "L":
+                    step["L"] = p["L"] * rng.uniform(0.3, 0.999)  # tails stay admissible
+                return step
+            L = _logu(rng, 1e-2, 1e2)
             centre = L * rng.uniform(-3, 3)
             if rng.random() < c["pEom"]:
                 # exactly what EOM._updateGrid passes when the mean free path is
@@ -275,6 +293,8 @@ class GridMachine(Machine):
                                centre=step["centre"])
             if step.get("kind") == "eom":
                 self.ctx.probes["on_constraint_boundary"] += 1
+            if str(step.get("kind", "")).startswith("one:"):
+                self.ctx.probes["single_argument_rescale"] += 1
         else:
             self.params.update(L=step["L"])
         if self.lastRejected:
@@ -329,9 +349,14 @@ class GridMachine(Machine):
         f = self._construct(self.params)
         where = "after a rejected rescale" if self.lastRejected else "after rescale history"
         obs = []
+        p = self.params
+        zScale = p["L"] if not self.is3 else (p["L"] / self.cfg["r"] + p["tailIn"]
+                                              + p["tailOut"] + abs(p["centre"]))
+        scales = {"xiValues": zScale, "dxidchi": zScale, "pzValues": p["T"], "dpzdrz": p["T"],
+                  "ppValues": p["T"], "dppdrp": p["T"], 0: zScale, 1: p["T"], 2: p["T"]}
         for name in CACHED:
             a, b = getattr(g, name), getattr(f, name)
-            if not _same(a, b):
+            if not _same(a, b, scales[name]):
                 raise Violation("fresh-equality", f"cached:{name}",
                                 f"{name} differs from a freshly constructed grid {where}: "
                                 f"max abs diff {_maxdiff(a, b):.3e}", {"params": self.params})
@@ -341,7 +366,7 @@ class GridMachine(Machine):
                          "getCompactCoordinates"):
                 ra, rb = getattr(g, meth)(endpoints), getattr(f, meth)(endpoints)
                 for i, (a, b) in enumerate(zip(ra, rb)):
-                    if not _same(a, b):
+                    if not _same(a, b, 0.0 if meth == "getCompactCoordinates" else scales[i]):
                         raise Violation("fresh-equality", f"method:{meth}",
                                         f"{meth}(endpoints={endpoints})[{i}] differs from a "
                                         f"fresh grid {where}", {"params": self.params})
@@ -350,7 +375,7 @@ class GridMachine(Machine):
         for name, a, b in zip(CACHED, list(g.decompactify(chi, rz, rp))
                               + list(g.compactificationDerivatives(chi, rz, rp)),
                               [getattr(g, n) for n in CACHED]):
-            if not _same(np.asarray(a), b):
+            if not _same(np.asarray(a), b, scales[name]):
                 raise Violation("cache-consistency", f"cached:{name}",
                                 f"cached {name} is not the map evaluated on the grid's "
                                 f"compact coordinates {where}")
@@ -360,7 +385,7 @@ class GridMachine(Machine):
                                ("compactificationDerivatives", (chi, rz, rp))):
                 ra, rb = getattr(g, meth)(*args), getattr(f, meth)(*args)
                 for i, (a, b) in enumerate(zip(ra, rb)):
-                    if not _same(np.asarray(a), np.asarray(b)):
+                    if not _same(np.asarray(a), np.asarray(b), scales[i]):
                         raise Violation("fresh-equality", f"method:{meth}",
                                         f"{meth}[{i}] at seeded points differs from a fresh "
                                         f"grid {where}", {"params": self.params})
@@ -368,7 +393,7 @@ class GridMachine(Machine):
             zs = g.decompactify(chi, rz, rp)
             ra, rb = g.compactify(*zs), f.compactify(*zs)
             for i, (a, b) in enumerate(zip(ra, rb)):
-                if not _same(np.asarray(a), np.asarray(b)):
+                if not _same(np.asarray(a), np.asarray(b), 1e5):  # compact coords: 1e-8
                     raise Violation("fresh-equality", "method:compactify",
                                     f"compactify[{i}] at seeded points differs from a fresh "
                                     f"grid {where}: {np.asarray(a)} vs {np.asarray(b)}",
@@ -528,9 +553,22 @@ class GridMachine(Machine):
         return ab
 
 
-def _same(a: Any, b: Any) -> bool:
+def _same(a: Any, b: Any, scale: float = 0.0) -> bool:
+    """Equal up to rounding.  'Equivalent to constructing a new grid' is a
+    statement about values, not about bit patterns: a rescale that reaches the
+    same numbers by a different but valid order of floating-point operations
+    (differences of a few ulp) must not alarm.  Tolerance: 1e-12 relative plus
+    1e-13 of the direction's length scale; infinities must match exactly."""
     a, b = np.asarray(a), np.asarray(b)
-    return a.shape == b.shape and a.dtype == b.dtype and a.tobytes() == b.tobytes()
+    if a.shape != b.shape:
+        return False
+    if a.dtype != b.dtype or a.dtype.kind != "f":
+        return a.dtype == b.dtype and a.tobytes() == b.tobytes()
+    fin = np.isfinite(a) & np.isfinite(b)
+    if not np.array_equal(a[~fin], b[~fin], equal_nan=True):
+        return False
+    return bool(np.all(np.abs(a[fin] - b[fin]) <= 1e-12 * (np.abs(a[fin]) + np.abs(b[fin]))
+                       + 1e-13 * scale))
 
 
 def _maxdiff(a: Any, b: Any) -> float:
